@@ -15,6 +15,7 @@ names=${*:-chan_empty lost simbin pcopy raw tiff sbs mon filt close}
 for n in $names; do rm -f ./*.o; echo "=== $n"; SAN=
  case $n in
  chan_empty) clang $CF $H/chan_empty.c $V/runtime/channel.c $PLAT -o t -lpthread -ldl && ./t ;;
+ lateregister) clang $CF $H/lateregister.c $V/runtime/sink.c $V/runtime/channel.c $V/runtime/throttler.c $V/runtime/vfslice.c $V/runtime/frame_iterator.c $H/stub.c $C/acquire-device-hal/device/hal/storage.c $C/acquire-device-hal/device/hal/driver.c $PROPS $PLAT -o t -lpthread -ldl -lm && timeout 30 ./t 2>&1 | tail -4 ;;
  nineth) clang $CF $H/nineth.c $V/runtime/channel.c $PLAT -o t -lpthread -ldl && timeout 10 ./t 2>&1 | tail -4 ;;
  holdmove) clang $CF $H/holdmove.c $V/runtime/channel.c $PLAT -o t -lpthread -ldl && ./t 2>&1 | tail -2 ;;
  lost) clang $CF -c -Dcondition_variable_wait=hooked_wait $V/runtime/channel.c -o ch.o && clang $CF $H/lost.c $H/realwait.c ch.o $PLAT -o t -lpthread -ldl && ./t ;;
